@@ -147,14 +147,32 @@ func genCase(t *rapid.T) Case {
 			k := rapid.IntRange(1, 3).Draw(t, fmt.Sprintf("nsort%d", i))
 			for j := 0; j < k; j++ {
 				// sort fields must be selected first (documented)
+				// keys whose values are maps or arrays (all equal as sort keys: any order among them is
+				// right, rows lacking the key still come last)
+				nonScalar := map[string]bool{"meta": true, "deep": true, "deep.a": true}
+				for _, p := range gen.SortedProps(schema) {
+					switch schema[p].Type {
+					case models.IndexTypeStringArray, models.IndexTypeVectorFlat, models.IndexTypeVectorVamana:
+						nonScalar[p] = true
+					}
+				}
 				var cands []string
 				if sp.Select[0] == "*" {
 					cands = append(append([]string{}, sortFields...), "meta.k", "missing")
+					for _, p := range []string{"meta", "deep.a", gen.PTags, gen.PFlat, gen.PVamana} {
+						if nonScalar[p] {
+							cands = append(cands, p)
+						}
+					}
 				} else {
 					for _, s := range sp.Select {
 						switch s {
 						case "rank", "price", "label", "meta.k", "missing":
 							cands = append(cands, s)
+						default:
+							if nonScalar[s] {
+								cands = append(cands, s)
+							}
 						}
 					}
 				}
